@@ -16,7 +16,7 @@ from pbmc.oracles import dft
 pb = bind_repo()
 PID = "C19"
 
-DTYPES = ["bool", "int8", "uint8", "int16", "uint16", "int32", "int64", "float16", "float32", "float64", "longdouble", ">f4", ">f8", ">i2"]
+DTYPES = ["bool", "int8", "uint8", "int16", "uint16", "int32", "int64", "float16", "float32", "float64", "longdouble", ">f4", ">f8", ">i2", ">f2"]
 BOUNDS = {"quick": dict(Nmax=16, full=7), "thorough": dict(Nmax=33, full=9)}
 LAYOUTS = [(1, 0), (1, -1), (2, 0), (2, 1), (2, -1), (2, -2), (3, 0), (3, 1), (3, 2), (3, -1), (3, -2), (3, -3)]
 
@@ -99,7 +99,8 @@ def check_case(case):
     E = (R @ V.T.astype(dft.CLD)).T if N else np.zeros((nv, 0), dft.CLD)       # nv x M
     M = (N + 1) // 2
     # accuracy is demanded at the precision the input itself can carry: half/single inputs -> single precision
-    eps = float(np.finfo(np.float32).eps) if (dt.kind == "f" and dt.itemsize <= 4) else float(np.finfo(np.float64).eps)
+    # (half precision comes back as complex128: its values are exact doubles, so the result is held to double precision)
+    eps = float(np.finfo(np.float32).eps) if (dt.kind == "f" and dt.itemsize == 4) else float(np.finfo(np.float64).eps)
     # FFT round-off grows with the coherent sum of the input (DC bin of a constant vector is N): budget 8 eps N max|x|
     tol = 8 * eps * max(N, 4) * max(1.0, float(np.max(np.abs(V))) if V.size else 1.0)
     for rank, axis in LAYOUTS:
@@ -345,7 +346,7 @@ def main(argv=None):
     return report.run_check(
         PID, gen_cases=gen_cases, check_case=check_case, describe=describe,
         required_hits=["N = 0", "N = 1", "non-contiguous input", "zero-length other axis", "concurrent same-shape calls explored", "negative axis", "middle axis of rank 3", "complex refused", "empty complex input refused", "tone mapped", "long axis", "tiny magnitudes"],
-        assumptions=["budget 8 eps max(N,4) max|x| with eps = single precision for float16/float32 input (scipy.fft computes half-precision input in single precision) and double otherwise"],
+        assumptions=["budget 8 eps max(N,4) max|x| with eps = single precision for float32 input and double otherwise (also for float16 input, whose result is complex128)"],
         argv=argv)
 
 
